@@ -69,7 +69,9 @@ pub fn predicate(name: &str, sc: &Scenario, v: &Violation) -> bool {
             let exits_early = ops.iter().any(|o| matches!(o, Op::ExitShell { .. } | Op::Die { .. }));
             let marker_end = t.expr.find("@ve:").map(|i| i + 17).unwrap_or(t.expr.len());
             let unread = t.expr.len().saturating_sub(marker_end);
-            exits_early && unread > 1024
+            // (how much has to be left unread depends on the pipe capacity and on how far scrut got
+            // with feeding the script when the shell went away, i.e. on the schedule)
+            exits_early && unread > 16
         }
         // C: single-script mode recognises any output line containing the divider prefix as a
         // divider (the salt is never compared)
